@@ -543,7 +543,7 @@ def read_path_refusals_and_constant_side(ctx):
     for t in ct:
         neg = c04._polarity(t.ast)[1]           # canonical `constant is None`; neg => written test is true when a constant exists
         has_const = 'T' if neg else 'F'
-        cret = {i for n in body_walk(f.node) if isinstance(n, ast.Return) and n.value is not None and '.constant' in src(n.value) for i in cfg.ids(n)}
+        cret = {i for n in body_walk(f.node) if isinstance(n, (ast.Return, ast.Assign)) and n.value is not None and '.constant' in src(n.value) for i in cfg.ids(n)}
         reads = {i for c in calls_in(f.node) if isinstance(c.func, ast.Call) and dotted(c.func.func) == 'getattr' and 'read_' in src(c.func) for i in cfg.node_of(c)}
         on = cfg.reach([t.id], labels={has_const}, avoid=[t.id])
         off = cfg.reach([t.id], labels={'F' if has_const == 'T' else 'T'}, avoid=[t.id])
